@@ -31,6 +31,10 @@ The change must look like something a maintainer could plausibly commit (a refac
 changed default, an off-by-one, `==` instead of `is`, a truthiness test, a moved statement …), and it must need something SPECIFIC
 to manifest: a particular argument combination, tree shape, data flavour (clones, equal-but-distinct objects, explicit or falsy ids,
 typed trees with several kinds, calc_data_id hooks), a multi-step history, two cooperating call sites, or a particular schedule.
+Strongly prefer one of these harder kinds of change: (1) TWO cooperating edits at different sites that each look harmless alone;
+(2) a change that only manifests after a multi-step history (three or more operations, e.g. a stale cache / index entry that a
+LATER call trips over); (3) a change that only manifests under a documented but unusual argument, option or data flavour that
+everyday use does not touch. Avoid single-token flips of the kind listed below.
 Prefer places and mechanisms DIFFERENT from these, which were already tried for this property:
 """ + "".join(f"  - {t}\n" for t in tried.get(pid, [])) + f"""
 Deliver, in {out}/:
